@@ -23,7 +23,11 @@ Python ↔ Lean (Python 3.12 code path; `version/python3_12.py` inherits `visit_
   `instrument` = the two loops of `InstrumentationTransformer._instrument_code_recursive`.
 * `edgesOf` / `cfgEdges` = `CFG._create_nodes_and_edges` + `nx.DiGraph.add_edge`.
 * `Pool` = `BranchGoalPool`, `Trace.update` = `ExecutionTrace.update_predicate_distances`,
-  `branchCovered` = `BranchGoal.is_covered`, `codeObjectCovered` = `BranchlessCodeObjectGoal.is_covered`.
+  `branchCovered` = `BranchGoal.is_covered`, `codeObjectCovered` = `BranchlessCodeObjectGoal.is_covered`,
+  `isclose` = `math.isclose(·, 0.0, rel_tol, abs_tol)`.
+* `Call`, `TState.call(s)` = the tracer callbacks `executed_code_object` / `executed_*_predicate` with the
+  `enabled` flag: `_early_return`, `temporarily_disable` (restoring in `finally`), nested callbacks made
+  while the operands are evaluated, evaluations that raise.
 
 Mathlib-free.
 -/
@@ -416,8 +420,23 @@ def Trace.update (tr : Trace) (p : Nat) (dT dF : Num) : Trace :=
     trueDist := dset tr.trueDist p (pyMin ((dget tr.trueDist p).getD .pinf) dT),
     falseDist := dset tr.falseDist p (pyMin ((dget tr.falseDist p).getD .pinf) dF) }
 
-/-- `math.isclose(x, 0.0)` (default tolerances: relative 1e-9, absolute 0) holds exactly for `x == 0`. -/
-def iscloseZero (x : Num) : Bool := x.eqZero
+/-- `math.isclose(x, 0.0, rel_tol=rel, abs_tol=absTol)` in exact arithmetic (CPython's `math_isclose_impl`
+with `b = 0.0`: equal operands are close; an infinite or NaN operand is close to nothing else; otherwise
+`diff <= |rel*b| or diff <= |rel*a| or diff <= abs_tol` with `diff = |a - b| = |x|`).  Rounding the
+product `rel*|x|` to a float is monotone and never reaches `|x|` for `rel < 1/2`, so the float answer is
+the exact one. -/
+def isclose (rel absTol : Rat) : Num → Bool
+  | .fin q =>
+    let d := if q < 0 then -q else q
+    decide (q = 0) || decide (d ≤ rel * 0) || decide (d ≤ rel * d) || decide (d ≤ absTol)
+  | _ => false
+
+/-- `rel_tol` default of `math.isclose`: `1e-09`. -/
+def defaultRelTol : Rat := mkRat 1 1000000000
+
+/-- `math.isclose(x, 0.0)` as `BranchGoal.is_covered` calls it (default tolerances: relative 1e-9,
+absolute 0); `Lemmas.iscloseZero_eq`: it holds exactly for `x == 0`. -/
+def iscloseZero (x : Num) : Bool := isclose defaultRelTol 0 x
 
 /-- `BranchGoal.is_covered` (`none` = `KeyError`). -/
 def branchCovered (tr : Trace) (p : Nat) (v : Bool) : Option Bool :=
@@ -445,5 +464,84 @@ def Trace.step (tr : Trace) : Ev → Trace
   | .pred p dT dF => tr.update p dT dF
 
 def Trace.run (tr : Trace) (evs : List Ev) : Trace := evs.foldl Trace.step tr
+
+/-! ## The tracer's callbacks with the `enabled` flag (`_early_return`, `temporarily_disable`)
+
+`ExecutionTracer.executed_code_object` and `executed_compare_predicate / executed_bool_predicate /
+executed_exception_match / executed_in_presence_predicate` as the instrumented code calls them:
+`_early_return` drops the call when the thread's tracer is disabled; a predicate callback evaluates
+the operands (comparison, truth value, membership — operator code of the module under test, which is
+instrumented itself and makes callbacks of its own: `body`) inside `with self.temporarily_disable()`
+and records the distances with `_update_metrics` unless that evaluation raised. -/
+
+/-- How the evaluation of the operands inside a predicate callback ended. -/
+inductive Res
+  /-- `_early_return` returned before anything was evaluated -/
+  | skipped
+  /-- the evaluation raised (`1 < "a"`, `x in 5`, a raising `__eq__` / `__bool__`): the exception leaves
+  the callback, the interpreter never reaches the conditional jump -/
+  | raised
+  /-- `_update_metrics(distance_false, distance_true, predicate)` was reached -/
+  | ok (dT dF : Num)
+  deriving Repr
+
+/-- One callback made by instrumented code. -/
+inductive Call
+  /-- `tracer.executed_code_object(coid)` -/
+  | enter (coid : Nat)
+  /-- `tracer.executed_*_predicate(..., p, ...)`; `body` = the callbacks made while the operands are
+  evaluated inside the callback -/
+  | pred (p : Nat) (body : List Call) (res : Res)
+  deriving Repr
+
+/-- `ExecutionTracer.TracerLocalState`: the flag and the trace. -/
+structure TState where
+  enabled : Bool
+  trace : Trace
+  deriving Repr
+
+def TState.init : TState := ⟨true, Trace.empty⟩
+
+mutual
+/-- One callback.  `restore` = does the context manager re-enable the tracer when its body raises
+(`try: yield finally: self.enable()` — the code of the tree: `true`; a bare `disable()` … `enable()`
+pair or a context manager without `finally`: `false`, only used for the counterexample).
+`none` = this record cannot come from the tracer (an enabled tracer never skips, a disabled tracer
+never evaluates). -/
+def TState.call (restore : Bool) (s : TState) : Call → Option TState
+  | .enter c => some (if s.enabled then { s with trace := s.trace.step (.enter c) } else s)
+  | .pred p body res =>
+    if s.enabled then
+      -- `with self.temporarily_disable():` — `self.disable()`, then the body
+      match TState.calls restore { s with enabled := false } body with
+      | none => none
+      | some s1 =>
+        match res with
+        | .skipped => none
+        | .raised => some (if restore then { s1 with enabled := true } else s1)
+        | .ok dT dF => some { enabled := true, trace := s1.trace.update p dT dF }
+    else
+      match res, body with
+      | .skipped, [] => some s
+      | _, _ => none
+def TState.calls (restore : Bool) (s : TState) : List Call → Option TState
+  | [] => some s
+  | c :: cs =>
+    match TState.call restore s c with
+    | none => none
+    | some s' => TState.calls restore s' cs
+end
+
+/-- What a top-level callback contributes to the trace of an enabled, restoring tracer. -/
+def Call.top : Call → Option Ev
+  | .enter c => some (.enter c)
+  | .pred p _ (.ok dT dF) => some (.pred p dT dF)
+  | .pred _ _ _ => none
+
+/-- A callback that a disabled tracer drops. -/
+def Call.isSkip : Call → Bool
+  | .enter _ => true
+  | .pred _ [] .skipped => true
+  | .pred _ _ _ => false
 
 end PynguinModel.BranchInstr
